@@ -1062,20 +1062,26 @@ func (e *Env) RunC09(c *Case) (out *Out) {
 	defer func() { e.Raw = false }()
 	rootT := &Type{K: "struct", ID: e.structID(c.Root)}
 	var objs []reflect.Value
+	// a record that lives in its own writer and was written once holding v
+	mkWritten := func(v any) reflect.Value {
+		e.lastArr = nil
+		w, err := e.Roots[c.Root].NewWriter(&ChunkSink{}, pkg.WriterOptions{})
+		if err != nil {
+			panic(err)
+		}
+		wv := reflect.ValueOf(w)
+		o := wv.Elem().FieldByName("Record").Addr()
+		e.set(rootT, o, v, &setOpts{freeze: c.Freeze})
+		if err := call(wv, "Write")[0]; !err.IsNil() {
+			panic(err.Interface())
+		}
+		return o
+	}
 	for _, v := range c.Vals {
 		e.lastArr = nil
 		var o reflect.Value
 		if c.Written {
-			w, err := e.Roots[c.Root].NewWriter(&ChunkSink{}, pkg.WriterOptions{})
-			if err != nil {
-				panic(err)
-			}
-			wv := reflect.ValueOf(w)
-			o = wv.Elem().FieldByName("Record").Addr()
-			e.set(rootT, o, v, &setOpts{freeze: c.Freeze})
-			if err := call(wv, "Write")[0]; !err.IsNil() {
-				panic(err.Interface())
-			}
+			o = mkWritten(v)
 		} else {
 			o = e.newRecord(c.Root)
 			e.set(rootT, o, v, &setOpts{freeze: c.Freeze})
@@ -1099,8 +1105,27 @@ func (e *Env) RunC09(c *Case) (out *Out) {
 	}
 	// copies: equal to the source, independent of it
 	n := len(objs)
+	pre := make([]string, n)
+	if c.Written {
+		// written records of DIFFERENT writers (each has its own dictionaries, so that different values
+		// carry the same reference numbers in their encoder caches): CopyFrom / the setters over a record
+		// that was written holding another value give exactly the source value
+		for i := range objs {
+			tgt := mkWritten(c.Vals[(i+1)%n])
+			call(tgt, "CopyFrom", objs[i])
+			if d := dump(tgt); d != res.Dumps[i] || cmp(tgt.Interface(), objs[i].Interface()) != 0 {
+				pre[i] += fmt.Sprintf("CopyFrom over a written record of another writer differs from the source (%s vs %s);", diffAt(d, res.Dumps[i]), diffAt(res.Dumps[i], d))
+			}
+			tgt2 := mkWritten(c.Vals[(i+1)%n])
+			e.lastArr = nil
+			e.set(rootT, tgt2, c.Vals[i], &setOpts{freeze: c.Freeze})
+			if d := dump(tgt2); d != res.Dumps[i] || cmp(tgt2.Interface(), objs[i].Interface()) != 0 {
+				pre[i] += fmt.Sprintf("a written record of another writer set to a new value differs from it (%s vs %s);", diffAt(d, res.Dumps[i]), diffAt(res.Dumps[i], d))
+			}
+		}
+	}
 	for i := range objs {
-		msg := ""
+		msg := pre[i]
 		src := objs[i]
 		before := dump(src)
 		cp := e.newRecord(c.Root)
